@@ -166,11 +166,21 @@ func (x *Exec) beforeHints(fr *Frame, i *ssa.Call) {
 	}
 	fr.callCount[name]++
 	keys := []string{name, fmt.Sprintf("%s#%d", name, fr.callCount[name])}
+	if c, ok := common.Value.(*ssa.Function); ok && c.Origin() != nil && c.Name() != name {
+		// an instance of a generic function can be addressed by its instantiated name, e.g. calcPRelu[float32]
+		keys = append(keys, c.Name())
+	}
 	for _, k := range keys {
 		for n, cl := range fr.contract.Before[k] {
 			env := x.funcEnv(fr, fr.curSt)
 			env.loop = fr.innermostLoop(fr.curBlock)
 			env.atPoint = true
+			// $arg0, $arg1, ...: the actual arguments of the call (static calls only)
+			if !common.IsInvoke() {
+				for ai, a := range common.Args {
+					env.vars[fmt.Sprintf("$arg%d", ai)] = x.valueOf(fr, a)
+				}
+			}
 			label := cl.Label
 			if label == "" {
 				label = fmt.Sprintf("%s:%d", k, n+1)
@@ -304,7 +314,9 @@ func (x *Exec) staticCall(fr *Frame, i *ssa.Call, fn *ssa.Function, args []Val, 
 	}
 	if c := x.contractFor(fn); c != nil && !x.forceInline(fn) {
 		label := funcKey(fn)
+		restore := x.withTypeArgs(fn)
 		res := x.applyContract(fr, c, label, fn.Signature, args, false)
+		restore()
 		x.noteContractUse(fn, c)
 		fr.vals[i] = res
 		return
@@ -347,6 +359,38 @@ func (x *Exec) staticCall(fr *Frame, i *ssa.Call, fn *ssa.Function, args []Val, 
 }
 
 func (x *Exec) forceInline(fn *ssa.Function) bool { return false }
+
+// typeByName resolves a type spelling of a contract; inside the contract of a generic function
+// the names of its type parameters stand for the type arguments of the instance at hand.
+func (x *Exec) typeByName(s string) types.Type {
+	s = strings.TrimSpace(s)
+	if strings.HasPrefix(s, "[]") {
+		if e := x.typeByName(s[2:]); e != nil {
+			return types.NewSlice(e)
+		}
+		return nil
+	}
+	if t, ok := x.tsubst[s]; ok {
+		return t
+	}
+	return x.prog.typeByName(s)
+}
+
+// withTypeArgs binds the type parameter names of fn's generic origin to the instance's type
+// arguments for the duration of a contract evaluation; returns the restore function.
+func (x *Exec) withTypeArgs(fn *ssa.Function) func() {
+	saved := x.tsubst
+	x.tsubst = nil
+	if o := fn.Origin(); o != nil && o.TypeParams() != nil {
+		targs := fn.TypeArgs()
+		m := map[string]types.Type{}
+		for k := 0; k < o.TypeParams().Len() && k < len(targs); k++ {
+			m[o.TypeParams().At(k).Obj().Name()] = targs[k]
+		}
+		x.tsubst = m
+	}
+	return func() { x.tsubst = saved }
+}
 
 // inlineExternal: tiny dependency functions that are safe to execute symbolically.
 func (x *Exec) inlineExternal(fn *ssa.Function) bool {
@@ -420,6 +464,14 @@ func resultVars(sig *types.Signature, res Val) map[string]Val {
 	if rt.Len() == 0 {
 		return out
 	}
+	// a parameter called "result" keeps its name; the returned value is then result0 / err
+	defer func() {
+		for k := 0; k < sig.Params().Len(); k++ {
+			if sig.Params().At(k).Name() == "result" {
+				delete(out, "result")
+			}
+		}
+	}()
 	if rt.Len() == 1 {
 		out["result"] = res
 		out["result0"] = res
